@@ -427,7 +427,7 @@ func (e *Exec) load(fr *frame, instr ssa.Instruction, p PtrV) Value {
 	t := e.resolve(fr, instr, p)
 	if t.p != nil {
 		if len(e.pooled) > 0 && e.pooled[t.p] {
-			e.assertProp(e.ts.False, "use after release: load from an object that is in the pool", e.where())
+			e.softViolation("use after release: load from an object that is in the pool", e.where())
 		}
 		return copyVal(*t.p)
 	}
@@ -493,7 +493,7 @@ func (e *Exec) store(fr *frame, instr ssa.Instruction, T types.Type, p PtrV, v V
 	}
 	if t.p != nil {
 		if len(e.pooled) > 0 && e.pooled[t.p] {
-			e.assertProp(e.ts.False, "use after release: store to an object that is in the pool", e.where())
+			e.softViolation("use after release: store to an object that is in the pool", e.where())
 		}
 		e.storeInto(T, t.p, v)
 		return
